@@ -108,29 +108,39 @@ def one(ctx, kp, letter, alt, octave, name, up, *, record=True):
     return got
 
 
+def _string_laws(ctx, kp, letter, alt, octave, src, d, d0):
+    got = kp.transpose(src, kp.IntervalsByName['P1'], direction=d)
+    if got != src:
+        ctx.violation('unison', f'unison {d} of {src} = {got!r}', {'pitch': src, 'direction': d})
+    ctx.ev()
+    got = kp.transpose(src, kp.IntervalsByName['octave'], direction=d)
+    exp = I.spell(letter, alt, octave + (1 if d == 'up' else -1))
+    if got != exp:
+        ctx.violation('octave', f'octave {d} of {src} = {got!r}, expected {exp!r}', {'pitch': src, 'direction': d})
+    # P4 then P5 = octave (when the intermediate pitch is spellable)
+    el, ea, eo = I.transpose(letter, alt, octave, 'P4', d == 'up')
+    if abs(ea) <= 2:
+        ctx.ev()
+        mid = kp.transpose(src, kp.IntervalsByName['P4'], direction=d)
+        got = kp.transpose(mid, kp.IntervalsByName['P5'], direction=d)
+        if got != exp:
+            ctx.violation('p4-p5', f'{src} {d} P4 -> {mid} {d} P5 -> {got!r}, expected the octave {exp!r}',
+                          {'pitch': src, 'direction': d})
+    return exp, ea
+
+
 def laws(ctx, kp, letter, alt, octave):
     src = I.spell(letter, alt, octave)
     for d0 in ('up', 'down'):
         d = dir_arg(kp, d0 == 'up')
         ctx.ev()
         ctx.mon('law_call')
-        got = kp.transpose(src, kp.IntervalsByName['P1'], direction=d)
-        if got != src:
-            ctx.violation('unison', f'unison {d} of {src} = {got!r}', {'pitch': src, 'direction': d})
-        ctx.ev()
-        got = kp.transpose(src, kp.IntervalsByName['octave'], direction=d)
-        exp = I.spell(letter, alt, octave + (1 if d == 'up' else -1))
-        if got != exp:
-            ctx.violation('octave', f'octave {d} of {src} = {got!r}, expected {exp!r}', {'pitch': src, 'direction': d})
-        # P4 then P5 = octave (when the intermediate pitch is spellable)
-        el, ea, eo = I.transpose(letter, alt, octave, 'P4', d == 'up')
-        if abs(ea) <= 2:
-            ctx.ev()
-            mid = kp.transpose(src, kp.IntervalsByName['P4'], direction=d)
-            got = kp.transpose(mid, kp.IntervalsByName['P5'], direction=d)
-            if got != exp:
-                ctx.violation('p4-p5', f'{src} {d} P4 -> {mid} {d} P5 -> {got!r}, expected the octave {exp!r}',
-                              {'pitch': src, 'direction': d})
+        try:
+            exp, ea = _string_laws(ctx, kp, letter, alt, octave, src, d, d0)
+        except Exception as ex:  # noqa  (a unison, an octave, a fourth and a fifth of a spellable pitch are spellable)
+            ctx.violation('raises-on-spellable', f'unison / octave / P4+P5 of {src} ({d}) raised {type(ex).__name__}: {ex}',
+                          {'pitch': src, 'direction': d})
+            continue
         # the same laws on pitch OBJECTS that are used more than once: a pitch handed to a transposition is what it was afterwards,
         # and a pitch that came out of one can go into the next
         try:
